@@ -155,6 +155,13 @@ func build(n int, thorough bool) *fam {
 			hist("unused-slot-hdr-then-votes", true, append(append([]int{B(c1), add(chainlab.Event{Kind: chainlab.EvBlockSL, Block: c2, Src: 0, Signers: []int{0}, Slot: n + 1})}, votes(base[:len(base)], 0, c2)...), R, B(c3))...)
 		}
 	}
+	// a block first delivered with a header link from an unknown source (the node may refuse it after having touched
+	// its checkpoint tree), then delivered again carrying forged signatures for every slot: nothing may be justified,
+	// neither at once nor after a restart merges the stored header back
+	unk := add(chainlab.Event{Kind: chainlab.EvBlockSL, Block: c2, Src: chainlab.Foreign, Signers: []int{0}})
+	hist("refused-with-unknown-source-then-forged-hdr", false, B(c1), unk, BSL(c2, 0, allSlots, true), R, B(c3), B(c4))
+	hist("refused-with-unknown-source-then-plain", false, B(c1), unk, B(c2), B(c3), R, B(c4))
+	hist("refused-with-unknown-source-then-valid-hdr", false, B(c1), unk, BSL(c2, 0, full2(n), false), R, B(c3), B(c4))
 	// D: supermajority link from an UNJUSTIFIED source, then the source gets justified
 	full := allSlots[:thr]
 	hist("unjustified-source", false, append(append(append([]int{B(c1), B(c2), B(c3), B(c4)}, votes(full, c2, c4)...), R), votes(full, 0, c2)...)...)
@@ -339,6 +346,14 @@ func buildMulti(thorough bool) *fam {
 		}
 	}
 	return f
+}
+
+func full2(n int) []int {
+	var s []int
+	for i := 0; i < 2*n/3+1; i++ {
+		s = append(s, i)
+	}
+	return s
 }
 
 func getFam(n int) *fam {
